@@ -4,8 +4,9 @@ from __future__ import annotations
 from props import wsmodel as W
 
 ID = "C09"
-PROPERTIES_V = "theories/Properties/C09.v"
-CASE_IMPORTS = "From GV Require Import Prelude.Base Model.Ws Model.WsCheck."
+PROPERTIES_V = "theories/Properties/C09X.v"
+CHUNK = 8  # histories are heavy terms (a dump of tree and file after every op): small case files, evaluated in parallel
+CASE_IMPORTS = "From GV Require Import Prelude.Base Model.WsX Model.WsXCheck."
 ALLOWED_AXIOMS: list = []
 REFUTED = []
 PARTIAL = ["C09_step_frame (unconditional footprint; for Move/Reopen the sharp footprint needs Rep: C09_step_frame_rep / C09_step_frame_run)"]
@@ -15,8 +16,8 @@ LEVEL_TEXT = ("Unbounded Coq frame theorems: for EVERY state and EVERY single op
               "the oracle digests every stored node (entities, types, header) of the real file before and after each op.")
 TRUSTED = [
     "Coq 8.16.1 kernel + vm_compute (refutation witnesses, correspondence evaluation); Print Assumptions: closed under the global context for every theorem",
-    "hand-written model coq/theories/Model/Ws.v (memory tree + geoh5 file as a link graph with addresses) of Workspace.{create_entity, register, save_entity, update_attribute, remove_entity, remove_recursively, remove_children, remove_none_referents, close, open/fetch_or_create_root/fetch_children/load_entity}, Entity.parent setter, EntityContainer/ObjectBase.{add_children, remove_children}, H5Writer.{save_entity, write_entity, write_to_parent, remove_child, remove_entity, update_field/write_attributes/write_array_attribute/write_data_values}, H5Reader.{fetch_attributes, fetch_children}; tied to the code by comparing, after EVERY operation of generated histories, the live tree and a raw h5py dump of the file with the model (vm_compute)",
-    "modelled classes: RootGroup/ContainerGroup, Points, FloatData (one array token each); property groups, types, copies, other classes and concatenated drillholes are outside the Coq model and reach the check through the implementation-side oracle streams only",
+    "hand-written model coq/theories/Model/WsX.v (memory tree + geoh5 file as a link graph with addresses; property groups; copies) of Workspace.{create_entity, register, save_entity, update_attribute, remove_entity, remove_recursively, remove_children, remove_none_referents, close, open/fetch_or_create_root/fetch_children/load_entity, copy_to_parent, copy_property_groups, add_or_update_property_group}, ObjectBase.{add_data_to_group, find_or_create_property_group, remove_data_from_groups, copy}, Group.copy, Data.copy, PropertyGroup.{add_properties, remove_properties}, Entity.parent setter, EntityContainer/ObjectBase.{add_children, remove_children}, H5Writer.{save_entity, write_entity, write_to_parent, remove_child, remove_entity, update_field/write_attributes/write_array_attribute/write_data_values}, H5Reader.{fetch_attributes, fetch_children}; tied to the code by comparing, after EVERY operation of generated histories, the live tree and a raw h5py dump of the file with the model (vm_compute)",
+    "modelled classes: RootGroup/ContainerGroup, Points, FloatData (one array token each), property groups (identifier, name, ordered members), copies of data/objects/group subtrees within the workspace; types, cross-workspace copies, other classes and concatenated drillholes are outside the Coq model and reach the check through the implementation-side oracle streams only",
     "CPython/weakref/gc: the driver drops its references and runs gc.collect() after every operation, so 'dead' = 'not reachable from the root'; GC placement is represented by the explicit Sweep (listing getter) operations of the history",
     "h5py/HDF5 behaviour (hard links = same object address, member iteration by name, attribute and dataset storage) is observed, not verified",
     "tools/props/wsmodel.py (history generator, driver, canonicalisation of identifiers uuid.UUID(int=n+1) <-> n, raw dump, node digests, structural validator) and tools/props/wsext.py (extended oracle-only histories)",
@@ -37,7 +38,7 @@ def generate(rng, tier):
     from props import wsext
 
     n = 40 if tier == "quick" else 1000
-    cases = [{"ops": W.gen_history(rng.fork(2000 + i), rng.range(10, 24))} for i in range(n)]
+    cases = [{"ops": W.gen_history_x(rng.fork(2000 + i), rng.range(10, 22))} for i in range(n)]
     # oracle-only stream: drillhole groups (concatenated storage), two workspaces, cross-workspace copies, listing getters
     m = 40 if tier == "quick" else 800
     cases += [{"dh": True, "ops": wsext.gen_dh_history(rng.fork(7000 + i), rng.range(14, 26))} for i in range(m)]
@@ -49,19 +50,19 @@ def drive_one(case, work):
         from props import wsext
 
         return wsext.run_dh_history(case["ops"], work, "c09d")
-    return W.run_history(case["ops"], work, "c09", want_digests=True)
+    return W.run_history_x(case["ops"], work, "c09", want_digests=True)
 
 
 def case_term(case, obs):
     if case.get("dh"):
         return None  # outside the Coq model
-    return W.history_case_term(case["ops"], obs["steps"])
+    return W.history_case_term_x(obs["ops_filled"], obs["steps"])
 
 
 def model_term(case):
     if case.get("dh"):
         return None
-    return "trace init %s" % W.clist(W.cop(o) for o in case["ops"])
+    return None
 
 
 def _path(key, root_path):
@@ -69,7 +70,10 @@ def _path(key, root_path):
 
     if list(key) == ["G", 0]:
         return root_path
-    return "%s/{%s}" % (W.CONT[key[0]], uuid.UUID(int=key[1] + 1))
+    try:
+        return "%s/{%s}" % (W.CONT[key[0]], uuid.UUID(int=key[1] + 1))
+    except (ValueError, OverflowError):
+        return "?"
 
 
 def _subtree(rows, e):
@@ -92,7 +96,7 @@ def oracle(case, obs):
         from props import wsext
 
         return wsext.oracle_dh(case, obs)
-    ops, steps, dig, rp = case["ops"], obs["steps"], obs["digests"], obs["root_path"]
+    ops, steps, dig, rp = obs.get("ops_filled", case["ops"]), obs["steps"], obs["digests"], obs["root_path"]
     fails = []
     for i, op in enumerate(ops):
         st = steps[i]
@@ -117,12 +121,25 @@ def oracle(case, obs):
             allow_content = {_path(tgt, rp)}
         elif o == "move":
             allow_links = {_path(op["q"], rp)} | ({_path(parent_before[tgt], rp)} if tgt in parent_before else set())
+            if tgt[0] == "D" and tgt in parent_before:
+                allow_content = {_path(parent_before[tgt], rp)}
         elif o == "rm_ws":
             sub = _subtree(mem_before, tgt)
             allow_del = {_path(k, rp) for k in sub}
             allow_links = {_path(parent_before[k], rp) for k in sub if k in parent_before}
+            allow_content = {_path(parent_before[k], rp) for k in sub if k in parent_before and k[0] == "D"}
         elif o == "rm_parent":
             allow_links = {_path(parent_before[tgt], rp)} if tgt in parent_before else set()
+            if tgt[0] == "D":
+                allow_content = set(allow_links)            # the old parent's property groups forget the data set
+        elif o in ("pg_add", "pg_remove"):
+            allow_content = {_path(op["o"], rp)}          # the property-group block of the target object
+        elif o == "copy":
+            ids = op.get("ids") or []
+            kinds = "GOD"
+            allow_new = {"%s/{%s}" % (W.CONT[k], __import__("uuid").UUID(int=i + 1)) for i in ids for k in kinds}
+            allow_content = set(allow_new)
+            allow_links = {_path(op["q"], rp)}
         elif o == "sweep" or o == "reopen":
             # nodes of dead entities may be deleted (that is the deferred part of an earlier removal)
             live = {_path(r["key"], rp) for r in st["mem"]}
